@@ -1,9 +1,11 @@
 (* Blocking-analysis counts (C14); the cartesian-count formula is also used by the accuracy
    model (C15, label-column mode: total number of implicit labels).  Definitions only. *)
 From Coq Require Import List Bool ZArith Arith.
-From Splinkv Require Import Base.GroupBy.
+From Splinkv Require Import Base.TV Base.GroupBy Base.CumSum Model.Blocking.
 Import ListNotations.
 Local Open Scope Z_scope.
+
+Definition lenZ {A} (l : list A) : Z := Z.of_nat (length l).
 
 (* ---------------------------------------------------------------- misc.calculate_cartesian
    def calculate_cartesian(df_rows, link_type):   n = [row counts per source dataset]
@@ -32,10 +34,65 @@ Fixpoint all_pairs {A} (l : list A) : list (A * A) :=
   | [] => []
   | x :: t => map (pair x) t ++ all_pairs t
   end.
-Definition cross {A} (L R : list A) : list (A * A) := flat_map (fun l => map (pair l) R) L.
+(* [cross] is Blocking.cross *)
 (* pairs of records from two different input tables *)
 Fixpoint cross_pairs {A} (ts : list (list A)) : list (A * A) :=
   match ts with
   | [] => []
   | t :: rest => cross t (concat rest) ++ cross_pairs rest
   end.
+
+(* ---------------------------------------------------------------- count_comparisons_from_blocking_rule
+   post filter:  select count( * ) from L as l inner join R as r on <rule> where <link-type condition> *)
+Definition post_filter_count {rec} (adm : rec -> rec -> bool) (rule : rec -> rec -> tv) (L R : list rec) : Z :=
+  lenZ (filter (fun p => isT (rule (fst p) (snd p)) && adm (fst p) (snd p)) (cross L R)).
+
+(* pre filter:  L grouped by its equi-join key tuple, R grouped by its key tuple, inner join
+   USING (keys), sum(count_l * count_r).  A key tuple with a NULL component never joins, so
+   a record's key is [None] when any component is NULL.  No link-type condition here. *)
+Definition idL (v : list Z) : list Z := v.
+Definition some_keys {rec} (key : rec -> option (list Z)) (T : list rec) : list (list Z) :=
+  flat_map (fun x => match key x with Some k => [k] | None => [] end) T.
+(* __splink__count_comparisons_from_blocking_l / _r *)
+Definition key_groups {rec} (key : rec -> option (list Z)) (T : list rec) : list (list Z * Z) :=
+  map (fun k => (k, lenZ (members idL lex_leb (some_keys key T) k)))
+      (group_keys idL lex_leb (some_keys key T)).
+(* __splink__block_counts: key, count_l, count_r *)
+Definition block_counts {rec} (keyL keyR : rec -> option (list Z)) (L R : list rec)
+  : list (list Z * Z * Z) :=
+  flat_map (fun gl => flat_map (fun gr => if eqk lex_leb (fst gl) (fst gr)
+                                          then [(fst gl, snd gl, snd gr)] else [])
+                               (key_groups keyR R))
+           (key_groups keyL L).
+Definition block_size (b : list Z * Z * Z) : Z := snd (fst b) * snd b.
+Definition pre_filter_count {rec} (keyL keyR : rec -> option (list Z)) (L R : list rec) : Z :=
+  sumZ (map block_size (block_counts keyL keyR L R)).
+(* a rule without equi-join part: count_l * count_r *)
+Definition pre_filter_count_no_keys {rec} (L R : list rec) : Z := lenZ L * lenZ R.
+
+(* ---------------------------------------------------------------- n_largest_blocks
+   ... order by count_l * count_r desc limit n   (ties in unspecified order: the model fixes
+   one order; the theorem is about the sizes) *)
+Fixpoint insert_desc (b : list Z * Z * Z) (l : list (list Z * Z * Z)) :=
+  match l with
+  | [] => [b]
+  | h :: t => if block_size h <=? block_size b then b :: l else h :: insert_desc b t
+  end.
+Fixpoint sort_desc (l : list (list Z * Z * Z)) :=
+  match l with [] => [] | h :: t => insert_desc h (sort_desc t) end.
+Definition n_largest_blocks {rec} (n : nat) (keyL keyR : rec -> option (list Z)) (L R : list rec) :=
+  firstn n (sort_desc (block_counts keyL keyR L R)).
+
+(* ---------------------------------------------------------------- cumulative comparisons
+   count( * ) ... from blocked pairs group by match_key, zero-filled for rules without pairs;
+   cumulative_rows = running sum; start = cumulative_rows - row_count *)
+Definition row_counts {A} (nrules : nat) (blocked : list (nat * A)) : list Z :=
+  map (fun k => lenZ (filter (fun p => Nat.eqb (fst p) k) blocked)) (seq 0 nrules).
+Record cumrow := { row_count : Z; cumulative_rows : Z; start : Z; cartesian_count : Z }.
+Definition cumulative_table (cart : Z) (counts : list Z) : list cumrow :=
+  map (fun rc => {| row_count := fst rc; cumulative_rows := snd rc; start := snd rc - fst rc;
+                    cartesian_count := cart |})
+      (combine counts (cum_asc (fun x => x) counts)).
+Definition cumulative_comparisons {rec} (adm : rec -> rec -> bool) (rules : list (rec -> rec -> tv))
+           (cart : Z) (L R : list rec) : list cumrow :=
+  cumulative_table cart (row_counts (length rules) (block adm rules L R)).
